@@ -10,6 +10,14 @@ CLAIMED = {
          'Trusted: ir2c, libc models (byte-exact scanners), CBMC. Server-level clauses (responses on the wire, other connections) are outside; header value parsers and line steps are in progress.', '4 C03'),
  'C04': ('(a) ParserBase::reset() from an ARBITRARY parser state (any step index, any 64-bit body/chunk counters, any small buffer) restores the fresh-parser state: one inductive step covering every history before a reset; (b) every Done/raise of the body step leaves the progress counters at their initial values (asserted in the C01 body lemmas for every body section of 8/11 bytes and every cut).',
          'Trusted: as C01. Handler::onInput calling reset exactly once per finished message and Request::operator= are outside this check (planned).', '4 C04'),
+ 'C05': ('(a) DynamicStreamBuf (src/common/stream.cc, real std::vector<char> growth code inlined): for each concrete (initial size, maximum) in {0,1,3}x{s0,s0+1,5,6,8} and two writes of symbolic bytes, a write is cut short iff the configured maximum is reached, the stored bytes are exactly the accepted bytes in order across every growth boundary, the storage never exceeds the maximum, nothing is stored after a refused byte, clear() rewinds. Sequencing of status line / headers / Content-Length / chunk framing (putOnWire, ResponseStream) sits on std::ostream and is outside.',
+         'Trusted: ir2c, byte-wise put model of xsputn (libstdc++), fixed-size allocation mode (sizes asserted functionally).', '4 C05'),
+ 'C06': ('Drain loop Transport::asyncWriteImpl with the inlined BufferHolder/WriteEntry code (sel mode): for every queue of 1..2 (thorough 3) raw/file entries with symbolic sizes <= 2..3 (thorough 4), any resume offset of the head entry, any flags, and every script of short writes / would-block results over 2..3 (thorough 4) invocations, each send/sendfile call continues exactly at the end of the accepted stream (pointer, length, file offset, flags), each promise is settled at most once and fulfilled only after its last byte with the buffer\'s full size, EAGAIN leaves the unwritten tail at the head with the rest of the queue untouched, and when the peer keeps reading everything is fulfilled. A second harness adds EPIPE/other errno (at-most-once settlement, lock, no spinning).',
+         'Trusted: ghost deque/unordered_map/unique_lock/shared_ptr models at method boundaries, recording stubs for Resolver/Rejection, socket fault stub. Cross-thread enqueueing is C13; TLS and real sockets outside.', '4 C06'),
+ 'C07': ('Would-block step of the same unit as C06 (only the C07 obligations are asserted): after EAGAIN no further send attempt is made in the same invocation (a stub that keeps answering EAGAIN would otherwise fail the unwinding assertions, i.e. no spinning), Read|Write interest is armed exactly once, the queue lock is released on return, queues of other descriptors are not touched, and once the socket accepts data again everything pending is delivered; for every fault script within the C06 bounds.',
+         'Trusted: as C06. Latency of other connections, the reactor loop and the kernel\'s edge-triggered re-arm are outside.', '4 C07'),
+ 'C13': ('Real Queue<int>/PollableQueue<int> push/pop/popSafe code of mailbox.h (hooks on) translated in resumable mode and run under our own sequentialisation: for every schedule of <= 9/14 steps (one shared access per step, idle allowed) of 1 producer x 1 push, 2 producers x 1 push and 1 producer x 2 pushes against the consumer\'s drain loop (thorough: 2x2 and 3x1, <= 22 steps), at every quiescent end state each item is popped at most once, per-producer FIFO holds, popped + queued == pushed, and a queued item implies a pending eventfd notification.',
+         'Trusted: sequential consistency (as the property states), eventfd counter model, level-triggered wake-up of the consumer, hook placement checked by the translator. Relaxed-memory effects and the real epoll are outside.', '4 C13'),
  'C16': ('(a) Consistency of the case-insensitive hash and equality used by every header map, on the real toLowercase / LowercaseEqual / LowercaseEqualStatic code with real std::string SSO code: for all pairs of strings of length <= 3 (thorough 6) over all 256 byte values LowercaseEqual(a,b) <=> toLowercase(a)==toLowercase(b) and toLowercase is the C-locale fold, so a stored name is found under every capitalisation and equal keys hash equally. (b) HeadersStep hands exactly the sent name/value byte ranges to addRaw/parseRaw/cookie parsers (C01 headers harness, every 8-byte header section). Typed write/parse round trips (c) are in progress.',
          'Trusted: libstdc++ unordered_map semantics (insert keeps the first value, find = hash + equal), std::hash<string> a function of the bytes, C locale. Date header outside.', '4 C16'),
  'C19': ('AddressParser, Port(const std::string&) and the port section of Address::init (src/common/net.cc, sel mode with ghost strings, byte-exact strtol model): for every text of length <= 11 (thorough 12): host/port/hasColon/family equal a reference splitter (bracketed literal first, else first colon); a port is accepted iff it is a complete numeral in 0..65535 and is then stored untruncated (80 when absent); everything else raises std::invalid_argument before any resolution is attempted.',
@@ -20,6 +28,7 @@ CLAIMED = {
 NA = {
 }
 PENDING = 'check not built yet in this round (planned, see DESIGN.md section 4); no claim is made until the check exists'
+HOOK_COMMITS = ['83d9942']
 def main():
     props = [json.loads(l) for l in open(os.path.join(V, 'properties.jsonl'))]
     checks = []; na = []
@@ -35,7 +44,7 @@ def main():
             na.append({'property_id': pid, 'reason': NA.get(pid, PENDING)})
     m = {'version': 1, 'setup_cmd': 'python3 engine/selftest.py',
          'hooks': {'guard': 'PISTACHE_VERIF_HOOKS', 'enable': 'checks compile the anchored translation units themselves with clang++-14/g++ -DPISTACHE_VERIF_HOOKS (no cmake option needed)',
-                   'baseline_off_cmd': 'cmake --build /repo/_build -j8 && ctest --test-dir /repo/_build -j8 --timeout 900', 'source_commits': [], 'add_only': True},
+                   'baseline_off_cmd': 'cmake --build /repo/_build -j8 && ctest --test-dir /repo/_build -j8 --timeout 900', 'source_commits': HOOK_COMMITS, 'add_only': True},
          'engines': [{'name': 'ir2c+cbmc', 'path': 'engine/', 'serves_properties': sorted(CLAIMED), 'kind_free_text': 'LLVM-IR to C translator + CBMC bounded model checker + native replay/translation validation'}],
          'checks': checks, 'not_applicable': na,
          'notes': 'All checks regenerate IR, C and verdicts from /repo\'s working tree on every run; scratch in /verif/.work is removed on exit.'}
